@@ -6,3 +6,6 @@ export CARGO_NET_OFFLINE=true
 export CARGO_TARGET_DIR="${VERIF_TARGET_DIR:-$ROOT/harness/target}"
 cd "$ROOT/harness"
 cargo build --release --offline --workspace
+# warm the secondary builds the C16 / C18 / C19 checks (re)build on demand
+"$ROOT/pre-C16.sh"
+"$ROOT/pre-C19.sh"
